@@ -93,8 +93,9 @@ PROPS = {
             "boundary binding helpers (single_nested_graph_bind_inputs/_output, schedule_sampled_input_consumers) do not touch the schedule",
         ],
         "assumptions": [],
-        "not_decided": ["equality of output streams between the inlined and the nested form (a relation between two programs)",
-                        "boundary binding correctness (nested_bindings.h)"],
+        "not_decided": ["equality of output streams between the inlined and the nested form (a relation between two programs): not proved, "
+                        "only the bounded catalogue native:c09_nested (7 bodies x 864 timings x 3 modes)",
+                        "boundary binding correctness (nested_bindings.h) beyond bind_sampled_input_to_source"],
     },
     "C03": {
         "modules": ["contracts.c03_node"],
